@@ -75,6 +75,16 @@ ReplaceLit(s, pat, rep, i) ==
   ELSE IF MatchAt(s, pat, i) THEN rep \o ReplaceLit(s, pat, rep, i + Len(pat))
   ELSE CharAt(s, i) \o ReplaceLit(s, pat, rep, i + 1)
 
+\* patterns that match the empty string and need no regex engine: "" (at every position), "^" (start), "$" (end), "^$" (empty text)
+RECURSIVE Interleave(_, _, _)
+Interleave(s, rep, i) == IF i > Len(s) THEN rep ELSE rep \o CharAt(s, i) \o Interleave(s, rep, i + 1)
+IsEmptyMatchPattern(p) == p \in {"", "^", "$", "^$"}
+ReplaceEmptyMatch(s, pat, rep) ==
+  CASE pat = "" -> Interleave(s, rep, 1)
+    [] pat = "^" -> rep \o s
+    [] pat = "$" -> s \o rep
+    [] OTHER -> IF s = "" THEN rep ELSE s
+
 RegexMeta == {"\\", ".", "+", "*", "?", "(", ")", "|", "[", "]", "{", "}", "^", "$", "#", "&", "-", "~"}
 IsLiteralPattern(p) == p # "" /\ \A i \in 1..Len(p) : CharAt(p, i) \notin RegexMeta
 IsPlainReplacement(r) == \A i \in 1..Len(r) : CharAt(r, i) # "$"
@@ -262,11 +272,12 @@ Call(fn, args, g, tr) ==
          ELSE IF args[1].t # "str" THEN FnErr("ExpectedString")
          ELSE IF Len(args) = 1 THEN FnErr("InvalidParameters")
          ELSE IF args[2].t # "str" THEN FnErr("ExpectedString")
-         ELSE IF ~IsLiteralPattern(args[2].s) THEN FnErr("Unsupported")
+         ELSE IF ~IsLiteralPattern(args[2].s) /\ ~IsEmptyMatchPattern(args[2].s) THEN FnErr("Unsupported")
          ELSE IF Len(args) = 2 THEN FnErr("InvalidParameters")
          ELSE IF args[3].t # "str" THEN FnErr("ExpectedString")
          ELSE IF Len(args) > 3 THEN FnErr("InvalidParameters")
          ELSE IF ~IsPlainReplacement(args[3].s) THEN FnErr("Unsupported")
+         ELSE IF IsEmptyMatchPattern(args[2].s) THEN FnOk(VStr(ReplaceEmptyMatch(args[1].s, args[2].s, args[3].s)), g)
          ELSE FnOk(VStr(ReplaceLit(args[1].s, args[2].s, args[3].s, 1)), g)
     [] fn = "concat" -> LET r == ConcatAll(args, 1, <<>>) IN IF r.ok THEN FnOk(VList(r.l), g) ELSE FnErr("ExpectedList")
     [] fn = "is-empty" ->
